@@ -26,8 +26,9 @@ ASSUMPTIONS = [
 ]
 
 
-# the two mixins are compared on ordinary classes and on classes whose instances all compare equal
-PAIRS = {"plain": ("HNM", "HLM"), "eq": ("HEqNM", "HEqLM")}
+# the two mixins are compared on ordinary classes, on classes whose instances all compare equal, and on classes that
+# override the public `children` property with a reversed view (setter and deleter are the mixin's own)
+PAIRS = {"plain": ("HNM", "HLM"), "eq": ("HEqNM", "HEqLM"), "rev": ("HRevNM", "HRevLM")}
 
 
 def outcome(exc):
@@ -45,12 +46,14 @@ def safe(func):
         return "raised " + type(exc).__name__
 
 
-def observe(universe, labels, full=True):
+def observe(universe, labels, full=True, only=None):
     """Every read-only query, mapped to labels (full=False: the navigation attributes and helpers only)."""
     L = labels.label
     LL = labels.labels
     out = {}
     for i, node in enumerate(universe):
+        if only is not None and i not in only:
+            continue
         o = {}
         o["path"] = LL(node.path)
         o["ancestors"] = LL(node.ancestors)
@@ -87,7 +90,7 @@ def observe(universe, labels, full=True):
         o["render-by_attr"] = RenderTree(node, maxlevel=2).by_attr("name")
         res = Resolver("name")
         relaxed = Resolver("name", relax=True)
-        for pat in ("*", "**", "*/*", "../*", "n?", "**/n1", "*/..", "/n0/*", "n1/n2", ".."):
+        for pat in ("*", "**", "*/*", "../*", "n?", "**/n1", "*/..", "/n0/*", "n1/n2", "..", "**/..", "**/../*", "**/**", "*/**/.."):
             o["glob:" + pat] = safe(lambda: LL(res.glob(node, pat)))
             o["rglob:" + pat] = safe(lambda: LL(relaxed.glob(node, pat)))
         for other in universe:
@@ -116,11 +119,11 @@ def compare_observations(obs_a, obs_b, uni_a, rec_a, when):
         raise Violation("query", "observations differ")
 
 
-def observe_both(rec_a, uni_a, rec_b, uni_b, full, when):
+def observe_both(rec_a, uni_a, rec_b, uni_b, full, when, only=None):
     mut.CURRENT[0] = rec_a
-    obs_a = observe(uni_a, rec_a.labels, full)
+    obs_a = observe(uni_a, rec_a.labels, full, only)
     mut.CURRENT[0] = rec_b
-    obs_b = observe(uni_b, rec_b.labels, full)
+    obs_b = observe(uni_b, rec_b.labels, full, only)
     compare_observations(obs_a, obs_b, uni_a, rec_a, when)
     return obs_a
 
@@ -194,8 +197,9 @@ def check_case(case, acc):
     # the queries are asked before the first call and after every call as well (values remembered from an earlier
     # question must not survive a later change of the tree), unless the case asks for a read-free history
     reads_between = case.get("reads_between", True)
+    sparse = reads_between if isinstance(reads_between, list) else None  # per call: the few nodes that are asked
     if reads_between:
-        observe_both(rec_a, uni_a, rec_b, uni_b, False, "before the first call")
+        observe_both(rec_a, uni_a, rec_b, uni_b, False, "before the first call", None if sparse is None else {x % len(uni_a) for x in sparse[0]})
     for stepno, item in enumerate(case["steps"]):
         op, plan = item["op"], item.get("plan") or {}
         results = []
@@ -224,7 +228,7 @@ def check_case(case, acc):
         if out_a != ["ok"]:
             refused += 1
         if reads_between and stepno + 1 < len(case["steps"]):
-            observe_both(rec_a, uni_a, rec_b, uni_b, False, "after call %d" % stepno)
+            observe_both(rec_a, uni_a, rec_b, uni_b, False, "after call %d" % stepno, None if sparse is None else {x % len(uni_a) for x in sparse[(stepno + 1) % len(sparse)]})
     obs_a = observe_both(rec_a, uni_a, rec_b, uni_b, True, "after the history")
     if len(case["steps"]) == 1:
         acc.nontrivial(changes > 0 or (refused > 0 and bool(results[0][2])))
@@ -245,6 +249,7 @@ def plan(tier, seed):
             tasks.append({"engine": "enum", "n": n, "index": i, "count": shards, "maxlen": None if n <= 3 else 2, "routes": None if n <= 3 else ["parent"]})
             if n <= 3:
                 tasks.append({"engine": "enum", "pair": "eq", "n": n, "index": i, "count": shards, "maxlen": None, "routes": ["parent"]})
+                tasks.append({"engine": "enum", "pair": "rev", "n": n, "index": i, "count": shards, "maxlen": None, "routes": ["parent"]})
     for route in ("parent", "children"):
         tasks.append({"engine": "deep", "route": route})
     examples = 80 if tier == "quick" else 500
@@ -266,7 +271,7 @@ def run_task(task, acc):
     else:
         from hypothesis import strategies as st
 
-        strat = st.tuples(mut.history_strategy(max_nodes=7, max_steps=25, faults="all+evict", invalid=False, class_specs=["HNM"]), st.sampled_from(["plain", "plain", "eq"])).map(lambda t: dict(t[0], pair=t[1], reads_between=t[0]["n"] % 3 != 0))
+        strat = st.tuples(mut.history_strategy(max_nodes=7, max_steps=25, faults="all+evict", invalid=False, class_specs=["HNM"]), st.sampled_from(["plain", "plain", "eq", "rev"])).map(lambda t: dict(t[0], pair=t[1], reads_between=(t[0]["n"] % 3 != 0) if len(t[0]["steps"]) % 2 else [[len(t[0]["steps"]) + j, j * j] [: j % 3] for j in range(1, 6)]))
         acc.run_hypothesis(check_case, strat, task["examples"], task["seed"])
 
 
